@@ -11,6 +11,9 @@ import (
 
 var ErrInjected = errors.New("env: injected transport error")
 
+// ErrSource is the error of a failing ReadFrom source (distinct from a destination failure).
+var ErrSource = errors.New("env: source failed")
+
 // Src is a byte source. Each Read delivers between 1 and min(len(p), remaining) bytes as
 // decided by Policy. When the data is exhausted (or Cut is reached) it returns EndErr
 // (io.EOF by default).
@@ -24,6 +27,9 @@ type Src struct {
 
 	// Policy decides how many bytes (1..max) a Read delivers. nil = deliver max.
 	Policy func(max int, off int) int
+	// ZeroEvery > 0: every ZeroEvery-th Read call returns (0, nil) without delivering anything
+	// (legal for an io.Reader, if discouraged).
+	ZeroEvery int
 	// OnRead, when set, sees the caller's slice before every non-empty Read (state keys).
 	OnRead func(p []byte, off int)
 
@@ -63,6 +69,10 @@ func (s *Src) Read(p []byte) (int, error) {
 			return 0, s.EndErr
 		}
 		return 0, io.EOF
+	}
+	if s.ZeroEvery > 0 && s.Reads%s.ZeroEvery == 0 {
+		s.ZeroReads++
+		return 0, nil
 	}
 	max := len(p)
 	if rem < max {
